@@ -1,3 +1,5 @@
+import keyword
+
 from rope.base import evaluate, exceptions, libutils, pyobjects, taskhandle
 from rope.base.change import ChangeContents, ChangeSet
 from rope.refactor import importutils, occurrences, rename, sourceutils
@@ -38,7 +40,7 @@ class IntroduceFactory:
         files in the project are searched.
 
         """
-        if not factory_name.isidentifier():
+        if not factory_name.isidentifier() or keyword.iskeyword(factory_name):
             raise exceptions.RefactoringError(
                 "Invalid factory name: '%s' is not a Python identifier." % factory_name
             )
